@@ -229,6 +229,52 @@ def sstr_eq(a, b):
     raise Undecided(f"string equality of different shapes: {a} vs {b}")
 
 
+_PLIT = {}
+_pcat = z3.Function("pcat", PStr, PStr, PStr)
+_pdec = z3.Function("pdec", z3.IntSort(), PStr)
+
+
+def plit(lit):
+    if lit not in _PLIT:
+        _PLIT[lit] = z3.Const("lit_" + (lit.encode("utf-8").hex() or "empty"), PStr)
+    return _PLIT[lit]
+
+
+def pstr_term(s):
+    """a structured string as ONE term of sort PStr (left fold of pcat over its parts)"""
+    if isinstance(s, str):
+        return plit(s)
+    t = None
+    for p in s.parts:
+        if isinstance(p, str):
+            q = plit(p)
+        elif isinstance(p, Dec):
+            q = _pdec(L.toint(p.n))
+        else:
+            q = p.t
+        t = q if t is None else _pcat(t, q)
+    return t if t is not None else plit("")
+
+
+class DecChar(L.SymVal):
+    """a character of a decimal rendering: a digit (or '-' in first position)"""
+    def __init__(self, first):
+        self.first = first
+
+    def sym_in(self, ctx, container):
+        for c in container:
+            if not isinstance(c, str) or len(c) != 1:
+                raise Undecided("DecChar membership")
+            if c.isdigit() or (self.first and c == "-"):
+                raise Undecided("DecChar membership in a digit set")
+        return False
+
+    def sym_eq(self, other):
+        if isinstance(other, str) and len(other) == 1 and not other.isdigit() and not (self.first and other == "-"):
+            return False
+        raise Undecided("DecChar equality")
+
+
 def as_sstr(x):
     if isinstance(x, SStr):
         return x
@@ -1402,6 +1448,8 @@ def contains(ctx, container, x):
     x = simplify_native(x)
     if hasattr(container, "sym_contains"):
         return container.sym_contains(ctx, x)
+    if hasattr(x, "sym_in"):
+        return x.sym_in(ctx, container)
     if isinstance(container, Ref):
         o = ctx.deref(container)
         if isinstance(o, HList):
@@ -1528,6 +1576,8 @@ def sstr_subscript(ctx, s, idx):
     if isinstance(idx, int):
         if idx < 0 and isinstance(parts[-1], str) and len(parts[-1]) >= -idx:
             return parts[-1][idx]
+        if idx == -1 and isinstance(parts[-1], Dec):
+            return DecChar(first=False)
         if idx >= 0 and isinstance(parts[0], str) and len(parts[0]) > idx:
             return parts[0][idx]
         h = ctx.opts.get("str_index")
@@ -1687,6 +1737,15 @@ def sstr_method(ctx, name, s, args, kwargs):
             else:
                 raise Undecided("split over opaque string part")
         return ctx.new_list([mk_str(t) for t in toks])
+    if name == "encode":
+        enc = args[0] if args else kwargs.get("encoding", "utf-8")
+        if enc not in ("utf-8", "utf8"):
+            raise Undecided("encode with " + str(enc))
+        t = pstr_term(s)
+        f = z3.Function("utf8", PStr, z3.IntSort())
+        g = z3.Function("utf8len", PStr, z3.IntSort())
+        L.sink().add(z3.And(f(t) >= 0, g(t) >= 0))
+        return L.OBytes(f(t), g(t))
     if name == "format":
         raise Undecided("format on structured string")
     if name == "strip":
